@@ -569,6 +569,79 @@ theorem deposit_spec {W U : Nat} {m m' : Market} {d : DepositParams} {pin : Perp
                       simp only [hs, ne_eq, not_true_eq_false, if_false] at hS
                       cases hS; exact ⟨rfl, rfl⟩
 
+/-! ### token conservation and frame of both legs -/
+
+theorem side_holdings {W : Nat} {m m' : Market} {d : DepositParams} {isLong : Bool} {pv : Nat} {r : SideResult}
+    (f : SideFacts W m m' d isLong pv r) :
+    m'.holdings isLong = m.holdings isLong + (if isLong then d.long else d.short) ∧
+    m'.holdings (!isLong) = m.holdings (!isLong) := by
+  unfold Market.holdings
+  have := f.amount; have := f.liq_same; have := f.liq_opp; have := f.imp_same; have := f.imp_opp
+  have := f.fee_same; have := f.fee_opp
+  constructor <;> omega
+
+/-- a successful deposit increases the holdings (liquidity + swap impact + claimable fees) of each
+token by exactly the deposited amount and the supply by the minted amount. -/
+theorem deposit_holdings {W U : Nat} {m m' : Market} {d : DepositParams} {pin : PerpIn} {t : DepositTrace}
+    (h : deposit W U m d pin = (m', .ok t)) :
+    m'.holdings true = m.holdings true + d.long ∧ m'.holdings false = m.holdings false + d.short := by
+  have f := deposit_spec h
+  obtain ⟨mL, mS, hl, hl0, hsh, hs0, hm', _⟩ := f.sides
+  have e' : ∀ b, m'.holdings b = mS.holdings b := by intro b; rw [hm']; rfl
+  have hL : mL.holdings true = m.holdings true + d.long ∧ mL.holdings false = m.holdings false := by
+    by_cases hz : d.long = 0
+    · obtain ⟨e1, _⟩ := hl0 hz; rw [e1, hz]; simp
+    · have := side_holdings (hl hz); simpa using this
+  have hS : mS.holdings false = mL.holdings false + d.short ∧ mS.holdings true = mL.holdings true := by
+    by_cases hz : d.short = 0
+    · obtain ⟨e1, _⟩ := hs0 hz; rw [e1, hz]; simp
+    · have := side_holdings (hsh hz); simpa using this
+  rw [e' true, e' false]; omega
+
+/-- a successful withdrawal decreases the holdings of each token by exactly the amount paid out. -/
+theorem withdraw_holdings {W U : Nat} {m m' : Market} {w : WithdrawParams} {pin : PerpIn} {r : WithdrawReport}
+    (h : withdraw W U m w pin = (m', .ok r)) :
+    m'.holdings true + r.longOut = m.holdings true ∧ m'.holdings false + r.shortOut = m.holdings false := by
+  have f := withdraw_spec h
+  unfold Market.holdings
+  simp only [Pool.amount, if_true, Bool.false_eq_true, if_false]
+  have := f.liq_long; have := f.liq_short; have := f.fee_long; have := f.fee_short
+  rw [f.impact]
+  constructor <;> omega
+
+/-- a successful deposit changes only the liquidity, swap-impact, claimable-fee pools, the swap
+virtual inventory and the supply; the liquidity pools grow by the credited amounts. -/
+theorem deposit_frame {W U : Nat} {m m₁ : Market} {d : DepositParams} {pin : PerpIn} {t : DepositTrace}
+    (hd : deposit W U m d pin = (m₁, .ok t)) :
+    m₁ = { m with primary := m₁.primary, swapImpact := m₁.swapImpact, fee := m₁.fee, viSwaps := m₁.viSwaps,
+                  supply := m₁.supply } ∧
+    m₁.primary.long = m.primary.long + (t.long.netAmount + t.long.fees.pool + t.short.positiveImpactAmount) ∧
+    m₁.primary.short = m.primary.short + (t.short.netAmount + t.short.fees.pool + t.long.positiveImpactAmount) := by
+  have f := deposit_spec hd
+  obtain ⟨mL, mS, fl, fl0, fs, fs0, hm, _⟩ := f.sides
+  have hL : mL = { m with primary := mL.primary, swapImpact := mL.swapImpact, fee := mL.fee, viSwaps := mL.viSwaps } ∧
+      mL.primary.long = m.primary.long + (t.long.netAmount + t.long.fees.pool) ∧
+      mL.primary.short = m.primary.short + t.long.positiveImpactAmount := by
+    by_cases hz : d.long = 0
+    · obtain ⟨e1, e2⟩ := fl0 hz; rw [e1, e2]; exact ⟨rfl, rfl, rfl⟩
+    · have g := fl hz
+      have a := g.liq_same; have b := g.liq_opp
+      simp only [Pool.amount, if_true, Bool.not_true, Bool.false_eq_true, if_false] at a b
+      exact ⟨g.frame, by omega, b⟩
+  have hS : mS = { mL with primary := mS.primary, swapImpact := mS.swapImpact, fee := mS.fee, viSwaps := mS.viSwaps } ∧
+      mS.primary.short = mL.primary.short + (t.short.netAmount + t.short.fees.pool) ∧
+      mS.primary.long = mL.primary.long + t.short.positiveImpactAmount := by
+    by_cases hz : d.short = 0
+    · obtain ⟨e1, e2⟩ := fs0 hz; rw [e1, e2]; exact ⟨rfl, rfl, rfl⟩
+    · have g := fs hz
+      have a := g.liq_same; have b := g.liq_opp
+      simp only [Pool.amount, Bool.false_eq_true, if_false, Bool.not_false, if_true] at a b
+      exact ⟨g.frame, by omega, b⟩
+  refine ⟨?_, ?_, ?_⟩
+  · rw [hm, hS.1, hL.1]
+  · rw [hm]; show mS.primary.long = _; omega
+  · rw [hm]; show mS.primary.short = _; omega
+
 end Gmx.Lem
 
 
